@@ -102,8 +102,13 @@ type refNav struct {
 }
 
 // defaultAnswer: every path is a leaf whose value identifies the path.
+// (every third value has the shape of a qualified name, "vrf:blue": a value is a string, whatever it looks like)
 func c02Answer(path string) xp.Answer {
-	return xp.Answer{Kind: xp.AnsLeaf, Vals: []string{fmt.Sprintf("v%x", core.Hash(path)&0xffffff)}}
+	h := core.Hash(path)
+	if h%3 == 0 {
+		return xp.Answer{Kind: xp.AnsLeaf, Vals: []string{fmt.Sprintf("br:v%x", h&0xffffff)}}
+	}
+	return xp.Answer{Kind: xp.AnsLeaf, Vals: []string{fmt.Sprintf("v%x", h&0xffffff)}}
 }
 
 // parseDerefTarget mirrors xpmock.DefaultDerefTarget on the reference side.
@@ -489,7 +494,11 @@ func c02AnswerSalted(salt int) func(string) xp.Answer {
 		if c02IsTags(path) {
 			return xp.Answer{Kind: xp.AnsLeafList, Vals: []string{"red", fmt.Sprintf("t%d", salt), "blue"}}
 		}
-		return xp.Answer{Kind: xp.AnsLeaf, Vals: []string{fmt.Sprintf("w%d%x", salt, core.Hash(fmt.Sprintf("%d|%s", salt, path))&0xffffff)}}
+		h := core.Hash(fmt.Sprintf("%d|%s", salt, path))
+		if h%3 == 0 {
+			return xp.Answer{Kind: xp.AnsLeaf, Vals: []string{fmt.Sprintf("rack-%d:w%x", salt, h&0xffffff)}}
+		}
+		return xp.Answer{Kind: xp.AnsLeaf, Vals: []string{fmt.Sprintf("w%d%x", salt, h&0xffffff)}}
 	}
 }
 
